@@ -97,6 +97,14 @@ Definition route_model (stream : str) : outcome str * option N :=
   | Panic => (Panic, None)
   end.
 
+(* RFC 5246 7.4.1.2 / RFC 8446 4.1.2: legacy_session_id<0..32>.  crypto/tls's unmarshal does not
+   enforce the bound (it reads any uint8-prefixed vector), fabio's parser does: a hello whose
+   session id is longer than 32 bytes is MALFORMED in the property's sense although a
+   crypto/tls server hands out a ClientHelloInfo for it, and rejecting it is what the property
+   asks for.  [off]: where the handshake message starts (0, or 5 behind a record header). *)
+Definition sid_too_long (off : nat) (msg : list N) : bool :=
+  match nth_error msg (off + 38) with Some l => 32 <? l | None => false end.
+
 Definition check_case (c : case) : N :=
   match c with
   | CBuf data impl =>
@@ -119,7 +127,7 @@ Definition check_case (c : case) : N :=
       let spec := match impl with
                   | Panic => false
                   | Ok n => match tls with Some t => beq n t | None => true end
-                  | Err _ => match tls with Some _ => false | None => true end
+                  | Err _ => match tls with Some _ => sid_too_long 0 msg | None => true end
                   end in
       verdict same spec None (match m with Ok (_ :: _) => true | _ => false end)
   | CStream stream impl consumed tls =>
@@ -135,7 +143,7 @@ Definition check_case (c : case) : N :=
                                | Some c, Ok rl => (c <=? rl + 5) && (c <=? nlen stream)
                                | _, _ => false
                                end
-                  | Err _ => match tls with Some (_ :: _) => false | _ => true end
+                  | Err _ => match tls with Some (_ :: _) => sid_too_long 5 stream | _ => true end
                   end in
       verdict same spec None (is_ok m)
   | CHello h snis data impl tls =>
